@@ -210,6 +210,8 @@ func checkC12(p *Prog, r *Report) {
 	pnftViewsAgree(p, r, kp)
 	checkInitGenesisCallers(p, r, "C12", "x/pnft")
 	checkPnftViewsDoNotRewriteEntities(p, r, kp)
+	checkPnftHandlersWriteExportedStateOnly(p, r, kp)
+	checkPnftIndexMovesAreSafe(p, r, kp)
 	// an in-place migration of the module rewrites no token, class or owner record
 	checkModuleMigrationsWriteNoData(p, r, kp)
 	checkNoUnseparatedCompositeMapKeys(p, r, func(rule, rest string) string { return rule + ":C12:" + rest }, "x/pnft")
@@ -827,9 +829,117 @@ func otherFamilyKey(p *Prog, key *Term) bool {
 	}
 	for _, n := range names {
 		// a prefix variable of x/nft (ClassKey, NFTKey, OwnerKey, …) or of any package outside the module: x/nft's own records
-		if strings.HasSuffix(n, "keeper.ClassKey") || strings.HasPrefix(n, "sdk/") || !InModuleName(n) {
+		if strings.HasSuffix(n, "keeper.ClassKey") || strings.HasPrefix(n, "sdk/") || !InModuleName(n) || aliasOfForeignGlobal(p, n) {
 			return false
 		}
 	}
 	return true
+}
+
+
+// aliasOfForeignGlobal: the module's package-level variable is initialised with the value of a variable of a package outside the
+// module (`var classKeyPrefix = nftkeeper.ClassKey`): it names that package's prefix, not a family of the module's own.
+func aliasOfForeignGlobal(p *Prog, name string) bool {
+	i := strings.LastIndex(name, ".")
+	if i < 0 {
+		return false
+	}
+	sp := p.SSAPkg(Rel(name[:i]))
+	if sp == nil {
+		return false
+	}
+	initFn := sp.Func("init")
+	if initFn == nil {
+		return false
+	}
+	for _, b := range initFn.Blocks {
+		for _, in := range b.Instrs {
+			st, ok := in.(*ssa.Store)
+			if !ok {
+				continue
+			}
+			g, ok := st.Addr.(*ssa.Global)
+			if !ok || g.Name() != name[i+1:] {
+				continue
+			}
+			if ld, ok := st.Val.(*ssa.UnOp); ok {
+				if fg, ok := ld.X.(*ssa.Global); ok && fg.Pkg != nil && !InModulePkg(fg.Pkg) {
+					return true
+				}
+			}
+		}
+	}
+	return false
+}
+
+// checkPnftIndexMovesAreSafe (C12): an entry of a family of the module's own that is moved from one key to another (a by-owner
+// index on a transfer) is deleted under the old key BEFORE it is written under the new one, or the move is skipped when the two
+// keys are equal — `set(new); delete(old)` removes the only entry when old == new (a transfer to oneself), after which the
+// listing that reads the index no longer returns the item the single-item view still shows.
+func checkPnftIndexMovesAreSafe(p *Prog, r *Report, kp func(string, string) string) {
+	n, nBad := 0, 0
+	for _, fn := range p.ModFuncs {
+		if fn.Blocks == nil || p.IsGenerated(fn) || !inExactPkgs(fn, "x/pnft/keeper") {
+			continue
+		}
+		o := NewOrigin(p, fn)
+		type op struct {
+			in   ssa.Instruction
+			fam  string
+			args string
+		}
+		var sets, dels []op
+		for _, cs := range callSites(fn) {
+			g := cs.Callee
+			if g == nil || !InModule(g) || len(cs.Instr.Common().Args) < 2 {
+				continue
+			}
+			// a one-operation helper of the keeper: Set / Delete of a key built by a module key builder from its parameters
+			kind := ""
+			var keyFn string
+			for _, so := range storeOpsOf(p, resolveBound(g)) {
+				if (so.Op == "Set" || so.Op == "Delete") && so.Key != nil && otherFamilyKey(p, so.Key) {
+					kind = so.Op
+					so.Key.Walk(func(x *Term) {
+						if keyFn == "" && x.Op == "call" && strings.Contains(x.Name, "x/pnft/") {
+							keyFn = x.Name
+						}
+					})
+				}
+			}
+			if kind == "" || keyFn == "" {
+				continue
+			}
+			var as []string
+			for _, a := range cs.Instr.Common().Args[2:] {
+				as = append(as, o.Of(a).String())
+			}
+			in, _ := cs.Instr.(ssa.Instruction)
+			if in == nil {
+				continue
+			}
+			e := op{in: in, fam: keyFn, args: strings.Join(as, ",")}
+			if kind == "Set" {
+				sets = append(sets, e)
+			} else {
+				dels = append(dels, e)
+			}
+		}
+		for _, s := range sets {
+			for _, d := range dels {
+				if s.fam != d.fam || s.args == d.args {
+					continue
+				}
+				n++
+				if o.dominates(s.in, d.in) {
+					nBad++
+					r.Fail(kp("WMC", FuncName(fn)+"#index-move:"+s.fam+"#delete-before-set"), "an index entry that is moved is deleted under its old key before it is written under the new one (or the move is skipped when the keys are equal)", p.Pos(d.in.Pos()),
+						fmt.Sprintf("%s writes the entry under the new key and then deletes the old key: when both keys are the same (a transfer to oneself) the only entry is gone — the listing that reads this index loses an item the single-item view still shows", FuncName(fn)))
+				}
+			}
+		}
+	}
+	if nBad == 0 {
+		r.OK(kp("WMC", "pnft-index-moves#delete-before-set"), "an index entry that is moved is deleted under its old key before it is written under the new one (or the move is skipped when the keys are equal)", "x/pnft/keeper", fmt.Sprintf("%d set/delete pairs on a family of the module's own under different keys, none sets before it deletes", n))
+	}
 }
